@@ -3,6 +3,8 @@ import Flatland.Markup.Json
 import Flatland.C12
 import Flatland.C11
 import Flatland.C19
+import Flatland.Run.FlatCommon
+import Flatland.Spec.EndToEnd
 open Lean Flatland.J
 namespace Flatland.Run.C12
 open Flatland.Markup Flatland.Markup.Json Flatland.C12 Flatland.Generated.C11
@@ -76,12 +78,55 @@ def ofPair (p : Option (List Char × List Char)) : Json :=
   | none => Json.null
   | some (a, b) => Json.arr #[ofStr a, ofStr b]
 
+/-! ### END TO END (Proofs/EndToEnd.lean): the posted pairs through `from_flat` of the flat model -/
+
+/-- the case tree as a `FormTree`; the widgets are not needed for `formPairs` / `uncheckedPairs` /
+    `embed` / `boolsCanonical` (`formOk` and `oneSubmitter` are evaluated by the harness on the renders) -/
+instance : Inhabited FormTree := ⟨.dict none []⟩
+
+partial def toForm : Tree → FormTree
+  | .leaf n u => .text n u (.input none) []
+  | .bool n tru u => .bool n tru u []
+  | .array n strip ms => .array n strip (ms.map (fun m => m.getD [])) .checkboxes []
+  | .dict n fs => .dict n (fs.map toForm)
+  | .list n ms => .list n (ms.map toForm)
+
+/-- `e2e` of the case: schema / env / elem of the flat model (built by the harness from the real
+    element).  Returns the observation compared with the real `from_flat(posted)` and the flag
+    "where the hypotheses hold and the posted pairs are `formPairs`, the rebuilt tree is `prS e`". -/
+def e2eObs (tree : Tree) (ej : Json) (posted : List (List Char × List Char)) : Except String (Json × Json × Bool) := do
+  let s ← Flatland.Run.FlatCommon.parseSchema (← fld ej "schema")
+  let env ← Flatland.Run.FlatCommon.parseEnv (← fld ej "env")
+  let e ← Flatland.Run.FlatCommon.parseElem (← fld ej "elem")
+  let t := toForm tree
+  let sep := Flatland.EndToEnd.usep
+  let rebuilt := Flatland.Flat.fromFlat env sep s posted
+  let prs := Flatland.Flat.Spec.prS env sep false s e
+  let own := formPairs [] t
+  let unchecked := uncheckedPairs [] t
+  let hn := Flatland.EndToEnd.hnodupB env sep s (Flatland.Flat.wrap (own ++ unchecked))
+  let ds := unchecked.isEmpty || Flatland.EndToEnd.dropSafe env s
+  let linked := Flatland.EndToEnd.linked env s e t
+  let c01 := Flatland.Flat.Spec.wfS s && Flatland.Flat.Spec.rootOK s && Flatland.Flat.Spec.okSB env s e
+    && Flatland.EndToEnd.envOKB env && Flatland.EndToEnd.namesSafe env s
+  let hyp := linked && boolsCanonical t && c01 && hn && ds
+  let same (a b : Flatland.Flat.Elem) : Bool :=
+    (Flatland.Run.FlatCommon.elemJson a).compress == (Flatland.Run.FlatCommon.elemJson b).compress
+  let concl := same rebuilt prs
+  -- the theorem on the model's own lists, and on what the modelled browser posted
+  let agrees := !hyp || (same (Flatland.Flat.fromFlat env sep s own) prs && (posted != own || concl))
+  return (obj [("posted", Flatland.Run.FlatCommon.pairsJson posted),
+               ("rebuilt", Flatland.Run.FlatCommon.elemJson rebuilt),
+               ("linked", Json.bool linked), ("c01_hyps", Json.bool c01), ("hnodup", Json.bool hn),
+               ("drop_safe", Json.bool ds), ("hyps_flat", Json.bool hyp)],
+          obj [("prs", Flatland.Run.FlatCommon.elemJson prs), ("rebuilt_is_prs", Json.bool concl)], agrees)
+
 def run (j : Json) : Except String Json := do
   let T := Tables.current
   let tree ← parseTree (← fld j "tree")
   let renders ← (← afld j "renders").mapM parseRender
   match Gen.init T (← cfld j "markup") (← parsePairs parseCVal (← fld j "settings")) with
-  | .error e => return obj [("init_err", Json.str e.name), ("pre", Json.arr #[]), ("renders", Json.arr #[])]
+  | .error e => return obj [("init_err", Json.str e.name), ("pre", Json.arr #[]), ("renders", Json.arr #[]), ("e2e", Json.null)]
   | .ok g0 =>
     let mut g := g0
     let mut pres : Array Json := #[]
@@ -91,7 +136,13 @@ def run (j : Json) : Except String Json := do
       pres := pres.push (obj [("err", ofErr e)])
     let mut outs : Array Json := #[]
     let mut names : Array (Option (List Char)) := #[]     -- name attribute of every render (for options)
+    let forms := (← afld j "renders").map (fun r => (bool (fldD r "form" (Json.bool false))).toOption.getD false)
+    let mut idx := 0
+    let mut seenSub := false
+    let mut e2ePosted : Array (List Char × List Char) := #[]
     for r in renders do
+      let isForm := forms.getD idx false
+      idx := idx + 1
       let bind := match r.sel with
         | none => none
         | some s => select r.shown tree [] s
@@ -127,6 +178,17 @@ def run (j : Json) : Except String Json := do
           ("id", ofOpt ofStr (attr? attrs sId)), ("for", ofOpt ofStr (attr? attrs sFor))])
         names := names.push (attr? attrs sName)
         g := { g with ctx := res.ctx }
-    return obj [("init_err", Json.null), ("pre", Json.arr pres), ("renders", Json.arr outs)]
+        -- END TO END: a submission has ONE activated submitter, the first of the form
+        let isSub := isSubmitter r.tag attrs
+        match posted with
+        | some p => if isForm && (!isSub || !seenSub) then e2ePosted := e2ePosted.push p
+        | none => pure ()
+        if isSub then seenSub := true
+    match j.getObjVal? "e2e" with
+    | .ok (.obj ej) =>
+      let (o, extra, ok) ← e2eObs tree (.obj ej) e2ePosted.toList
+      return obj [("init_err", Json.null), ("pre", Json.arr pres), ("renders", Json.arr outs), ("e2e", o), ("_e2e_spec", extra),
+                  ("spec_agrees", Json.bool ok)]
+    | _ => return obj [("init_err", Json.null), ("pre", Json.arr pres), ("renders", Json.arr outs), ("e2e", Json.null)]
 
 end Flatland.Run.C12
